@@ -137,3 +137,36 @@ Section WlCor.
     - intros w' i Hl. exact (wl_link_index T c _ t w' i HR Hl).
   Qed.
 End WlCor.
+
+(* ------------------------------------------------------------------ link() can be overtaken *)
+From Blue Require Import Sync42.ModelWcq Sync42.ProofsWcqTerm Sync42.ProofsWcqStarve.
+
+Lemma starve_exists : forall k, exists g,
+  ModelWcq.run nat nat (list nat) unit [] sv_can sv_batch sv_work
+    (ginit nat nat (list nat) unit 1 tt [repeat 7 (S k); [9]]) (starve_sched k) = Ok g /\
+  starved k g.
+Proof.
+  intro k. pose proof (starve_all k) as H.
+  destruct (ModelWcq.run nat nat (list nat) unit [] sv_can sv_batch sv_work
+              (ginit nat nat (list nat) unit 1 tt [repeat 7 (S k); [9]]) (starve_sched k))
+    as [g| | |]; try contradiction.
+  exists g. split; [reflexivity | exact H].
+Qed.
+
+(* in that schedule thread 1 takes a step in every cycle of 16 *)
+Lemma starve_sched_fair : forall k,
+  length (starve_sched k) = 2 + 16 * k /\
+  length (filter (fun a => match a with ARun 1 _ => true | _ => false end) (starve_sched k)) = S k.
+Proof.
+  intro k.
+  assert (L : length (concat (repeat starve_cycle k)) = 16 * k).
+  { induction k as [|k IH]; [reflexivity|].
+    cbn [repeat concat]. rewrite app_length, IH. change (length starve_cycle) with 16. lia. }
+  assert (F : length (filter (fun a => match a with ARun 1 _ => true | _ => false end)
+                             (concat (repeat starve_cycle k))) = k).
+  { clear L. induction k as [|k IH]; [reflexivity|].
+    cbn [repeat concat]. rewrite filter_app, app_length, IH. reflexivity. }
+  unfold starve_sched. split.
+  - rewrite app_length, L. reflexivity.
+  - rewrite filter_app, app_length, F. reflexivity.
+Qed.
